@@ -55,6 +55,22 @@ def chain_system():
   return n, sysd, st, symarr('u', (2,)), None
 
 
+def star_system():
+  """Free root with three children (one of them with its own child): links with several children."""
+  n = 5
+  nq, nv = 7 + 4, 6 + 4
+  sysd = symsys.system('f1111', (-1, 0, 0, 0, 2), nq=nq, nv=nv, nu=2, vel_damping=0, ang_damping=0)
+  sysd.f['dof'] = Struct('DoF', {
+      'motion': Struct('Motion', {'ang': symarr('da', (nv, 3)), 'vel': symarr('dv', (nv, 3))}, home='brax.base'),
+      'limit': (symarr('lo', (nv,)), symarr('hi', (nv,)))})
+  act = Struct('Actuator', {k: symarr(k, (2,)) for k in ('gain', 'gear', 'bias_q', 'bias_qd')})
+  act.f.update({'ctrl_range': symarr('cr', (2, 2)), 'force_range': symarr('fr', (2, 2)),
+                'q_id': np.array([7, 9]), 'qd_id': np.array([6, 8])})
+  sysd.f['actuator'] = act
+  st = symsys.state_maxcoord(n, q=symarr('q', (nq,)), qd=symarr('qd', (nv,)))
+  return n, sysd, st, symarr('u', (2,)), None
+
+
 def two_body_system():
   n = 2
   sysd = symsys.system('ff', (-1, -1), nq=14, nv=12, nu=0, vel_damping=0, ang_damping=0)
@@ -197,7 +213,9 @@ def leaf_laws(U, rep):
 def momentum(U, rep, tier):
   cases = [('spring', 'chain f-1-1, actuators, limits', chain_system),
            ('spring', 'two free bodies, two contacts', two_body_system),
+           ('spring', 'star: free root with three children and a grandchild', star_system),
            ('positional', 'chain f-1-1, actuators, limits', chain_system),
+           ('positional', 'star: free root with three children and a grandchild', star_system),
            ('positional', 'two free bodies, two contacts', two_body_system)]
   import os
   seed0 = int(os.environ.get('VERIF_SEED', '0') or 0)
